@@ -159,6 +159,30 @@ func c11Check(u *U, fn *stdFn, args []cty.Value) {
 	} else if allKnown && rt.Panic == "" && !rt.IsPanicE {
 		u.Violation(name+".types-prediction-rejects", shape(), fmt.Sprintf("%s with wholly known arguments succeeded with %s, but ReturnType(%s) rejected the call: %v", desc(), goStr(o.V), ctyTypesStr(tys), rt.Err))
 	}
+	// a type checker that knows only some of the argument types (dynamic
+	// placeholders for the rest) must not contradict the evaluation either
+	if allKnown && len(args) > 0 && len(args) <= 4 {
+		for mask := 1; mask < 1<<len(args); mask++ {
+			ptys := append([]cty.Type(nil), tys...)
+			for i := range ptys {
+				if mask&(1<<i) != 0 {
+					ptys[i] = cty.DynamicPseudoType
+				}
+			}
+			u.Eval(1)
+			prt := retType(fn.F, ptys)
+			switch {
+			case prt.Panic != "":
+				u.Violation(name+".rt-go-panic", ctyTypesStr(ptys), fmt.Sprintf("ReturnType of %s(%s) panicked: %s", name, ctyTypesStr(ptys), firstLineOf(prt.Panic)))
+			case prt.IsPanicE:
+				u.Violation(name+".rt-panic-error", ctyTypesStr(ptys), fmt.Sprintf("ReturnType of %s(%s) returned an error reporting an internal panic: %s", name, ctyTypesStr(ptys), firstLineOf(prt.Err.Error())))
+			case prt.Err != nil:
+				u.Violation(name+".placeholder-prediction-rejects", ctyTypesStr(ptys), fmt.Sprintf("%s with wholly known arguments succeeded with %s, but ReturnType(%s) (some argument types replaced by the dynamic placeholder) rejected the call: %v", desc(), goStr(o.V), ctyTypesStr(ptys), prt.Err))
+			case !refConforms(got, tsOf(prt.T)):
+				u.Violation(name+".type-vs-placeholder-prediction", ctyTypesStr(ptys), fmt.Sprintf("%s returned a value of type %#v which does not conform to the type %#v predicted by ReturnType(%s)", desc(), o.V.Type(), prt.T, ctyTypesStr(ptys)))
+			}
+		}
+	}
 	if u.WantSample() {
 		u.Sample(map[string]string{"call": desc(), "result": goStr(o.V), "type_from_values": fmt.Sprintf("%#v", rv.T), "type_from_types": fmt.Sprintf("%#v / %v", rt.T, rt.Err)})
 	}
